@@ -132,11 +132,65 @@ def sweep(res, tier, check, RemoteWorker, PersistentRemoteWorker):
     finally:
         server.terminate(force=True)
     server_dies_while_the_child_starts(res, RemoteWorker, PersistentRemoteWorker)
+    creation_fails_inside_a_context(res)
 
 
 class ExitOnUnpickle:
     def __reduce__(self):
         return (os._exit, (7,))
+
+
+def make_bad_ctx_worker():
+    """a persistent remote worker class which cannot be rebuilt on the server side (its __setstate__ refuses there): creating
+    it inside a context fails in the context's helper process with something that is not a ConnectionClosedError"""
+    from pyworkers.persistent_remote import PersistentRemoteWorker
+
+    class BadCtxWorker(PersistentRemoteWorker):
+        def __setstate__(self, st):
+            if st.get('_from_remote_parent'):
+                raise RuntimeError('cannot be rebuilt on this side')
+            super().__setstate__(st)
+    BadCtxWorker.__qualname__ = 'BadCtxWorker'
+    globals()['BadCtxWorker'] = BadCtxWorker
+    return BadCtxWorker
+
+
+def creation_fails_inside_a_context(res):
+    """a worker requested inside a registered context whose creation fails in the helper process: the constructor raises (it
+    does not wait for an answer that never comes) and the context stays usable for the next client"""
+    from pyworkers.remote_context import RemoteContext
+    from pyworkers.persistent_remote import PersistentRemoteWorker
+    server = st.start_server()
+    case = dict(case=['PersistentRemoteWorker', 'creation inside a context fails in the helper process'])
+    try:
+        ctx = RemoteContext(77, target=st.sq3, host=server.addr)
+        Bad = make_bad_ctx_worker()
+        o, x, d = construct(lambda: Bad(None, host=server.addr, context=77))
+        res.count('outcome:creation-fails-inside-context-' + o); res.case(('PersistentRemoteWorker', 'creation-fails-inside-context'), nontrivial=True)
+        if o == 'hang':
+            res.violation(case, 'the constructor did not return within 10 s')
+        elif o == 'returned' and (x.is_alive() or x.has_error is None):
+            res.violation(case, 'constructor returned a worker that is neither alive nor definitely dead')
+        # the next, well-behaved client of the same context
+        def good():
+            w = PersistentRemoteWorker(None, host=server.addr, context=77)
+            w.enqueue(2)
+            v = w.next_result(block=True)
+            w.wait(5)
+            return v
+        o2, x2, d2 = construct(good)
+        if not (o2 == 'returned' and x2 == 8):
+            res.violation(dict(case=['PersistentRemoteWorker', 'context after a creation that failed in the helper']),
+                          f'after a worker could not be created inside context 77 the next client of that context: {o2} {x2!r}')
+        try:
+            ctx.close()
+        except Exception:
+            pass
+    finally:
+        try:
+            server.terminate(force=True)
+        except Exception:
+            pass
 
 
 class ParkOnUnpickle:
